@@ -15,7 +15,7 @@ mod c24;
 fn main() {
     let args = Args::parse();
     explorer::quiet_panics();
-    let code = match args.property.as_str() {
+    let code = explorer::guard_main(&args.property, || match args.property.as_str() {
         "C01" => c01::run(Report::new(&args, "model_checking")),
         "C03" => ingest::run_c03(Report::new(&args, "model_checking")),
         "C05" => ingest::run_c05(Report::new(&args, "model_checking")),
@@ -29,6 +29,6 @@ fn main() {
             eprintln!("vh-core: unknown property {other}");
             2
         }
-    };
+    });
     std::process::exit(code);
 }
